@@ -13,7 +13,8 @@ RULE = ("A case is an ordered list of up to 12 well-formed capability records (e
         "get_capabilities() each time. Metamorphic oracle: raw capabilities of (b) = in-order merge of (a); (c) = (b) "
         "for every split, raw and public attributes. Part 'all_ids_values' sweeps every known id x value 0..255 next "
         "to fixed neighbours; 'random' draws lists. Distinct = distinct (list, splits); non-trivial = list has >= 2 "
-        "records.")
+        "records."
+        " Later additions: parts 'ordered_pairs' and 'same_id_twice_all_size_pairs'; flag bytes 2, 3, 0x80, 0xFF; a device that answers only the documented page selectors; constant response message ids; a late duplicate of the additional page; a lost additional page followed by a complete query (compared with an object that saw the same contents unpaged).")
 ASSUMPTIONS = [
     "white-box touch point: a spy on AirConditioner._update_capabilities records the merged raw capability mapping; "
     "the public supported_*/supports_* attributes are compared as well",
